@@ -53,6 +53,80 @@ pub fn cc_available() -> bool {
         .unwrap_or(false)
 }
 
+/// Verification hook (H3): forces the point at which a compiled artifact is treated as ready.
+/// `VERYL_VERIF_SWAP_AT=<n>` (or `set_swap_at(Some(n))`): every whole-comb / whole-event dispatch
+/// before the n-th one (counted per process since `reset`) reports `NotReady`; the n-th one waits for
+/// the artifact, so the swap from the chunked path to the compiled code happens exactly there.
+/// `VERYL_VERIF_SWAP_AT=never` (`set_swap_at(Some(u64::MAX))`) never swaps.  Unset = untouched.
+#[cfg(veryl_verif)]
+pub mod verif_swap {
+    use std::sync::OnceLock;
+    use std::sync::atomic::{AtomicU64, Ordering};
+
+    const OFF: u64 = u64::MAX - 1;
+    static COUNT: AtomicU64 = AtomicU64::new(0);
+    static SWAPPED: AtomicU64 = AtomicU64::new(0);
+    static AT: AtomicU64 = AtomicU64::new(OFF);
+    static ENV: OnceLock<()> = OnceLock::new();
+
+    fn at() -> u64 {
+        ENV.get_or_init(|| {
+            if let Ok(v) = std::env::var("VERYL_VERIF_SWAP_AT") {
+                if v == "never" {
+                    AT.store(u64::MAX, Ordering::SeqCst);
+                } else if let Ok(n) = v.parse::<u64>() {
+                    AT.store(n, Ordering::SeqCst);
+                }
+            }
+        });
+        AT.load(Ordering::SeqCst)
+    }
+
+    /// `None` switches the hook off; `Some(u64::MAX)` = never ready.
+    pub fn set_swap_at(n: Option<u64>) {
+        let _ = at();
+        AT.store(n.unwrap_or(OFF), Ordering::SeqCst);
+    }
+
+    pub fn reset() {
+        COUNT.store(0, Ordering::SeqCst);
+        SWAPPED.store(0, Ordering::SeqCst);
+    }
+
+    /// Dispatch attempts since `reset`.
+    pub fn count() -> u64 {
+        COUNT.load(Ordering::SeqCst)
+    }
+
+    /// Dispatches since `reset` that ran compiled code.
+    pub fn swapped() -> u64 {
+        SWAPPED.load(Ordering::SeqCst)
+    }
+
+    pub(super) enum Gate {
+        Untouched,
+        Closed,
+        Open,
+    }
+
+    pub(super) fn gate(advance: bool) -> Gate {
+        let at = at();
+        if at == OFF {
+            return Gate::Untouched;
+        }
+        let c = if advance {
+            COUNT.fetch_add(1, Ordering::SeqCst)
+        } else {
+            COUNT.load(Ordering::SeqCst)
+        };
+        if c >= at { Gate::Open } else { Gate::Closed }
+    }
+
+    pub(super) fn ran() {
+        SWAPPED.fetch_add(1, Ordering::SeqCst);
+    }
+}
+
 impl Backend for AotCBackend {
     fn name(&self) -> &str {
         "aot_c"
@@ -110,8 +184,40 @@ struct AotCWhole {
     localized: Arc<Vec<(isize, usize)>>,
 }
 
+#[cfg(veryl_verif)]
+impl AotCWhole {
+    /// False when the verification hook wants this dispatch to report `NotReady`.
+    fn verif_gate(&self, advance: bool) -> bool {
+        match verif_swap::gate(advance) {
+            verif_swap::Gate::Untouched => true,
+            verif_swap::Gate::Closed => false,
+            verif_swap::Gate::Open => {
+                // Wait for the background compile so the swap point is exact; a compile
+                // that never lands falls back exactly like production.
+                let t0 = std::time::Instant::now();
+                loop {
+                    if self.cell.get().is_some() {
+                        if advance {
+                            verif_swap::ran();
+                        }
+                        return true;
+                    }
+                    if t0.elapsed() > std::time::Duration::from_secs(120) {
+                        return false;
+                    }
+                    std::thread::sleep(std::time::Duration::from_millis(1));
+                }
+            }
+        }
+    }
+}
+
 impl CompiledWhole for AotCWhole {
     fn try_dispatch(&self, ff: *const u8, comb: *mut u8, log: *mut u8) -> DispatchOutcome {
+        #[cfg(veryl_verif)]
+        if !self.verif_gate(true) {
+            return DispatchOutcome::NotReady;
+        }
         match self.cell.get() {
             Some(m) => {
                 // SAFETY: caller provides pointers valid for the
@@ -128,6 +234,10 @@ impl CompiledWhole for AotCWhole {
     }
 
     fn try_dispatch_const(&self, ff: *const u8, comb: *mut u8, log: *mut u8) -> DispatchOutcome {
+        #[cfg(veryl_verif)]
+        if !self.verif_gate(false) {
+            return DispatchOutcome::NotReady;
+        }
         match self.cell.get() {
             Some(m) => {
                 if let Some(f) = m.const_func {
